@@ -216,7 +216,11 @@ Section Process.
 
   Definition non_ideal_entry (iso : bool) (m : Mixture) (cd : Conditions) (n : nat) (dt prec : num N)
       (ct : ActModel) slv (ea : Component -> res (num N)) (single : option (num N))
-      (raw1 raw2 : PervFn) (ip : option (Permeance * Permeance)) : res (list PRow * (PervFn * PervFn)) :=
+      (raw1 raw2 : PervFn) (ip : option (Permeance * Permeance)) (curve_xs : list Composition)
+    : res (list PRow * (PervFn * PervFn)) :=
+    (* the opening loop converts every mole-fraction composition of the curve set and discards the result
+       (only its validation can have an effect) *)
+    _ <- mapM (fun c => to_weight N c m) curve_xs ;;
     fits <- nonideal_fits single (negb iso) (cd_T0 cd) ea m raw1 raw2 ;;
     rows <- non_ideal_process iso m cd n dt prec ct slv (fst fits) (snd fits) ip ;;
     Ok (rows, fits).
